@@ -37,23 +37,35 @@ def r04_1(ctx):
     out = Outcome("R04.1", "IntegrateShape.polynomial = (1/(a+1)) * sum over every boundary curve of the vertical "
                            "integral of x^(a+1) y^b, with expy and nnodes forwarded", floor=4)
     fn = ctx.fn("shape.IntegrateShape.polynomial")
-    for a, b, nn in ((0, 0, None), (2, 3, 7), (4, 1, None), (1, 5, 9)):
+    for (a, b, nn), kind in [(x, k) for x in ((0, 0, None), (2, 3, 7), (4, 1, None), (1, 5, 9))
+                             for k in ("SimpleShape", "DisjointShape")][:6]:
         J = [Obj("j0"), Obj("j1"), Obj("j2")]
-        S = Obj("S", jordans=tuple(J))
         vals = {"j0": Fr(5), "j1": Fr(7), "j2": Fr(-3)}
+        if kind == "SimpleShape":
+            S = Obj("S", jordans=tuple(J), kind=kind)
+        else:
+            # a region with a hollow component and an island: a shape of shapes with the same three boundary curves
+            ring = Obj("ring", jordans=(J[0], J[1]), kind="ConnectedShape",
+                       subshapes=(Obj("outer", jordans=(J[0],), kind="SimpleShape"), Obj("hole", jordans=(J[1],), kind="SimpleShape")))
+            isle = Obj("isle", jordans=(J[2],), kind="SimpleShape")
+            S = Obj("S", jordans=tuple(J), subshapes=(ring, isle), kind=kind)
         calls = []
 
         def hook(rn, ev, call, name, recv, args, kwargs):
             if name == "isinstance":
-                return True
+                k = getattr(args[0], "kind", None) if isinstance(args[0], Obj) else None
+                if k is None:
+                    return True
+                from verifkit.absrun import isinstance_names
+                return any(n in ctx.model.mro(k) for n in isinstance_names(call, args))
             if name == "vertical":
                 calls.append(tuple(args))
                 return vals[args[0]._name]
             return NotImplemented
         try:
-            got = Runner(ctx, set(), hook, asserts=True).call_fn(fn, [S, a, b, nn])
+            got = Runner(ctx, {fn.qname}, hook, asserts=True).call_fn(fn, [S, a, b, nn])
         except (Undecided, Raised) as ex:
-            out.undecided(fn.qname, f"(a, b)=({a}, {b}): {ex}", where=fn.where())
+            out.undecided(fn.qname, f"(a, b)=({a}, {b}) on a {kind}: {ex}", where=fn.where())
             continue
         want = Fr(9, a + 1)
         want_calls = sorted(((j._name, a + 1, b, nn) for j in J), key=str)
@@ -63,9 +75,9 @@ def r04_1(ctx):
                               "forwarded", where=fn.where(), detail=f"(a, b, nnodes)=({a}, {b}, {nn}): calls {got_calls}")
         elif got != want:
             out.bad(fn.qname, "the sum of the boundary integrals is not divided by (a + 1)", where=fn.where(),
-                    detail=f"(a, b)=({a}, {b}): returns {got}, Green's formula gives {want}")
+                    detail=f"(a, b)=({a}, {b}) on a {kind}: returns {got}, Green's formula gives {want}")
         else:
-            out.ok(fn.qname, f"(a, b, nnodes)=({a}, {b}, {nn}) -> sum/{a + 1}", where=fn.where())
+            out.ok(fn.qname, f"(a, b, nnodes)=({a}, {b}, {nn}) on a {kind} -> sum/{a + 1}", where=fn.where())
     fa = ctx.fn("shape.IntegrateShape.area")
     S = Obj("S")
     seen = []
